@@ -139,6 +139,15 @@ def agg_canon(result):
   raise TypeError(f'unexpected aggregate result {type(r)}')
 
 
+def ret_canon(value):
+  """StopIteration.value of a pipeline iterator -> canonical aggregate (None when nothing is returned)"""
+  if value is None:
+    return None
+  if hasattr(value, 'agg_result'):
+    return agg_canon(value.agg_result)
+  return 'unexpected:' + type(value).__name__
+
+
 class Runner:
   """Runs one history on the real iterators."""
 
@@ -170,10 +179,13 @@ class Runner:
 
   def take(self, it, k):
     out = []
+    self.last_ret = 'not-exhausted'
     for _ in range(k):
       try:
         out.append(out_canon(next(it)))
-      except StopIteration:
+      except StopIteration as e:
+        # `_ChainedRunnerIterator.__next__` returns the aggregate as the generator return value
+        self.last_ret = ret_canon(e.value)
         break
     return out
 
@@ -205,12 +217,13 @@ class Runner:
       else:
         raise ValueError(op)
     final = self.take(it, case['final'])
-    obs = dict(log=log, final=final, agg=self.agg(it), err=None)
+    obs = dict(log=log, final=final, agg=self.agg(it), err=None, ret=self.last_ret)
     if probes:
       obs['probes'] = probes
     full_it = self.fresh()
     obs['full'] = self.take(full_it, 10 ** 6)
     obs['full_agg'] = self.agg(full_it)
+    obs['full_ret'] = self.last_ret
     return obs
 
 
@@ -218,7 +231,7 @@ def run_history(case):
   try:
     return Runner(case).run()
   except Exception as e:  # pylint: disable=broad-except
-    return dict(log=None, final=None, agg=None, err=err_kind(e), full=None, full_agg=None)
+    return dict(log=None, final=None, agg=None, err=err_kind(e), full=None, full_agg=None, ret=None, full_ret=None)
 
 
 def surviving(ops, log, final):
